@@ -116,7 +116,23 @@ def run(tier="quick", replay=None):
     R.floor("R19.c", "persist sites", len(persist_sites), 1)
     stagers = {}        # fn path -> dict(out_param, tmp_locals, hands_out)
     out_param_of = {}   # fn path -> parameter (1-based) naming the output path, for stagers/committers/writers
+    import inline as _inl
+    _views = {}
+
+    def view19(f0):
+        """f0 with private non-writer helpers of its module (or a private sub-module) inlined; f0's own blocks keep their indices."""
+        if f0.path not in _views:
+            bp = _inl.default_pred(prog, f0)
+            m0 = _inl.module_of(f0)
+
+            def related(g):
+                mg = _inl.module_of(g)
+                return mg == m0 or mg.startswith(m0 + "::") or m0.startswith(mg + "::")
+            _views[f0.path] = _inl.inlined(prog, f0, pred=lambda g: bp(g) and related(g) and g.path not in write_family
+                                           and g.path not in persist_family, depth=2)
+        return _views[f0.path]
     for f, bb, t in creators:
+        f = view19(f)
         fl = Flow(f)
         c = callee_of(t)
         key = "R19.c.sibling|%s" % f.path
